@@ -13,6 +13,7 @@ def dispatch (line : String) : String :=
   | "c07" :: rest => handleC07 rest
   | "c10" :: rest => handleC10 rest
   | "c19" :: rest => handleC19 rest
+  | "c11" :: rest => handleC19 rest
   | _ => "bad-op"
 
 partial def loop (h : IO.FS.Stream) (out : IO.FS.Stream) : IO Unit := do
